@@ -46,6 +46,10 @@ pub enum RootEv {
     ExtUpd(i32, i32),
     ExtRem(i32),
     ExtClr,
+    /// `@drop(n)` / `@take(n)` addressed to the map lane: the designated entries are removed one
+    /// by one in key order, each removal triggering on_remove like any other
+    ExtDrop(u32),
+    ExtTake(u32),
 }
 
 pub fn roots_of(script: &[(usize, Step)]) -> Vec<RootEv> {
@@ -60,7 +64,15 @@ pub fn roots_of(script: &[(usize, Step)]) -> Vec<RootEv> {
                     Some(MapEv::Update(k, v)) => out.push(RootEv::ExtUpd(k, v)),
                     Some(MapEv::Remove(k)) => out.push(RootEv::ExtRem(k)),
                     Some(MapEv::Clear) => out.push(RootEv::ExtClr),
-                    None => {}
+                    None => {
+                        let b = body.trim();
+                        let num = |pre: &str| b.strip_prefix(pre).and_then(|r| r.strip_suffix(')')).and_then(|n| n.trim().parse::<u32>().ok());
+                        if let Some(n) = num("@drop(") {
+                            out.push(RootEv::ExtDrop(n));
+                        } else if let Some(n) = num("@take(") {
+                            out.push(RootEv::ExtTake(n));
+                        }
+                    }
                 },
                 _ => {}
             }
@@ -280,6 +292,19 @@ impl<'a, 'o> Search<'a, 'o> {
                         RootEv::ExtUpd(k, x) => r2.exec(&H::Upd(k, X::Lit(x)), 0),
                         RootEv::ExtRem(k) => r2.exec(&H::Rem(k), 0),
                         RootEv::ExtClr => r2.exec(&H::Clr, 0),
+                        RootEv::ExtDrop(n) | RootEv::ExtTake(n) => {
+                            let keys: Vec<i32> = r2.m.keys().cloned().collect();
+                            let n = (n as usize).min(keys.len());
+                            let doomed: Vec<i32> = if matches!(ev, RootEv::ExtDrop(_)) { keys[..n].to_vec() } else { keys[n..].to_vec() };
+                            let mut res = Ok(());
+                            for k in doomed {
+                                res = r2.exec(&H::Rem(k), 0);
+                                if res.is_err() {
+                                    break;
+                                }
+                            }
+                            res
+                        }
                     };
                     (res, "command")
                 }
